@@ -126,7 +126,10 @@ class _Call:
                 res = pool._execute(self.func, unit, w)
             finally:
                 ctx.actor = prev_actor
-            self.writes[u] = {p for (a, k, p) in ctx.writes[w0:] if a == actor}
+            # (creating a directory is idempotent - several tasks may makedirs(exist_ok=True) the same
+            # level directory - and metadata calls do not change content: neither counts for I3)
+            self.writes[u] = {p for (a, k, p) in ctx.writes[w0:] if a == actor and
+                              k not in ("os.mkdir", "os.utime", "os.chmod", "os.chown")}
             self.reads[u] = {p for (a, p) in ctx.reads[r0:] if a == actor}
             self.done[u] = res
         self.completion.append(u)
